@@ -125,4 +125,69 @@ theorem tf_eq (k2 ssig1 dn1 ssig2 dn2 : ℝ) (h1 : dn1 ^ 2 = 1 + k2 * ssig1 ^ 2)
   rw [div_eq_iff hd]
   linear_combination h1 - h2
 
+/-- a point of a geodesic as the scale formulas see it: `(sin σ, cos σ)` on the unit circle and `dn = √(1 + k² sin²σ) > 0` -/
+structure Pt (k2 : ℝ) (s c d : ℝ) : Prop where
+  unit : s ^ 2 + c ^ 2 = 1
+  dn : d ^ 2 = 1 + k2 * s ^ 2
+  pos : 0 < d
+
+theorem M12f_eq (k2 s1 c1 d1 s2 c2 d2 J : ℝ) (h1 : Pt k2 s1 c1 d1) (h2 : Pt k2 s2 c2 d2) :
+    M12f k2 s1 d1 s2 c2 d2 (c1 * c2 + s1 * s2) J = c1 * c2 + s1 * s2 + ((d2 - d1) * s2 - c2 * J) * s1 / d1 := by
+  unfold M12f
+  rw [tf_eq k2 s1 d1 s2 d2 h1.dn h2.dn (by have := h1.pos; have := h2.pos; positivity)]
+
+theorem M21f_eq (k2 s1 c1 d1 s2 c2 d2 J : ℝ) (h1 : Pt k2 s1 c1 d1) (h2 : Pt k2 s2 c2 d2) :
+    M21f k2 s1 c1 d1 s2 d2 (c1 * c2 + s1 * s2) J = c1 * c2 + s1 * s2 - ((d2 - d1) * s1 - c1 * J) * s2 / d2 := by
+  unfold M21f
+  rw [tf_eq k2 s1 d1 s2 d2 h1.dn h2.dn (by have := h1.pos; have := h2.pos; positivity)]
+
+
+/-! ### `DST::integral`: weights and the Clenshaw recurrence -/
+
+/-- `Σ_j cs[j]/(2(k+j)+1) · cos((2(k+j)+1)x)` -/
+noncomputable def dstSum (x : ℝ) : ℕ → List ℝ → ℝ
+  | _, [] => 0
+  | k, c :: cs => c / (2 * (k : ℝ) + 1) * cos ((2 * (k : ℝ) + 1) * x) + dstSum x (k + 1) cs
+
+/-- the weights `F[i]/(2i+1)` -/
+noncomputable def dstW : ℕ → List ℝ → List ℝ
+  | _, [] => []
+  | k, c :: cs => c / (2 * (k : ℝ) + 1) :: dstW (k + 1) cs
+
+theorem dstW_eq (F : List ℝ) (k : ℕ) :
+    ((List.range F.length).map fun i => F.getD i 0 / (RealLike.ofNat (2 * (i + k) + 1) : ℝ)) = dstW k F := by
+  induction F generalizing k with
+  | nil => simp [dstW]
+  | cons c cs ih =>
+    rw [List.length_cons, List.range_succ_eq_map, List.map_cons, List.map_map]
+    simp only [dstW, List.getD_cons_zero, ofNat_real]
+    congr 1
+    · push_cast; ring
+    · rw [← ih (k + 1)]
+      apply List.map_congr_left
+      intro i _
+      simp only [Function.comp, List.getD_cons_succ, ofNat_real]
+      congr 2
+      omega
+
+theorem cos_rec_odd (x : ℝ) (k : ℕ) :
+    cos ((2 * ((k+1:ℕ):ℝ) + 1) * x) = 2 * cos (2*x) * cos ((2 * (k:ℝ) + 1) * x) - cos ((2 * (k:ℝ) - 1) * x) := by
+  have h1 : (2 * ((k+1:ℕ):ℝ) + 1) * x = (2 * (k:ℝ) + 1) * x + 2 * x := by push_cast; ring
+  have h2 : (2 * (k:ℝ) - 1) * x = (2 * (k:ℝ) + 1) * x - 2 * x := by ring
+  rw [h1, h2, cos_add, cos_sub]; ring
+
+theorem clen_cons (ar : ℝ) (c : ℝ) (cs : List ℝ) : clen ar (c :: cs) = (ar * (clen ar cs).1 - (clen ar cs).2 + c, (clen ar cs).1) := rfl
+
+theorem clenshaw_dst (x : ℝ) (F : List ℝ) (k : ℕ) :
+    dstSum x k F = (clen (2 * cos (2*x)) (dstW k F)).1 * cos ((2 * (k:ℝ) + 1) * x)
+                 - (clen (2 * cos (2*x)) (dstW k F)).2 * cos ((2 * (k:ℝ) - 1) * x) := by
+  induction F generalizing k with
+  | nil => simp [dstSum, dstW, clen, ofNat_real]
+  | cons c cs ih =>
+    simp only [dstSum, dstW]
+    rw [clen_cons, ih (k+1), cos_rec_odd x k]
+    have : (2 * ((k+1:ℕ):ℝ) - 1) * x = (2 * (k:ℝ) + 1) * x := by push_cast; ring
+    rw [this]; ring
+
+
 end GeoVerif.Proofs.GeodLineX
